@@ -1610,3 +1610,134 @@ class StarmapUnit(GenUnit):
 
 
 UNITS += [StarmapUnit]
+
+
+# ---- pure delegations: combinations, combinations_with_replacement, permutations ----------------------------------------------------
+# The function must (1) materialise the WHOLE input, in order, into the pool (the comprehension over _iterate(iterable), abstracted
+# as in starmap: A-comprehension), (2) call the standard library's function of the same name with that pool and the caller's r
+# (permutations: r = None means len(pool); TypeError / ValueError for a non-int / negative r as in the stdlib), (3) relay every
+# element of the stdlib iterator, once, in order, unchanged - and an exception of the stdlib call as it is.  Equality with the
+# stdlib then holds by construction.
+
+
+class PoolVal:
+    """the list of all elements the source still had, in order"""
+
+    def __init__(self, complete):
+        self.complete = complete
+
+
+def relay_inv(ip, env):
+    u = ip.ctx.unit
+    h = H(ip.st)
+    d = h.dq(SRC.cls, u.std.t)
+    i = ip.ctx.loop_k - u.std_lo0
+    j = z3.Int(ip.st.uniq("j"))
+    return [("every_element_of_the_stdlib_iterator_so_far_was_relayed_in_order", z3.And(i >= 0, ip.ctx.loop_k <= u.std_hi0, out_n(h) == i, d.hi == u.std_hi0, d.data == u.std_data0, forall([j], z3.Implies(z3.And(0 <= j, j < i), out_at(h, j) == z3.Select(u.std_data0, u.std_lo0 + j)), patterns=[out_at(h, j)])))]
+
+
+class DelegationUnit(GenUnit):
+    trusted = ("E1", "A-private-iterator", "A-comprehension", "A-stdlib-call")
+    std_name = None
+    r_may_be_none = False
+
+    def __init__(self):
+        super().__init__()
+        self.globals = dict(self.globals)
+        self.globals["itertools"] = NS("itertools", {n: Builtin("itertools." + n, (lambda n: lambda ip, pool, r: self.std_call(ip, n, pool, r))(n)) for n in ("combinations", "combinations_with_replacement", "permutations")})
+        self.globals["len"] = Builtin("len", lambda ip, x: Sym(self.n, INT) if isinstance(x, PoolVal) else lib.b_len(ip, x))
+        self.globals["int"] = ClassVal("int")
+
+    def make_args(self, ip):
+        self.new_source(ip)
+        self.gen_entry(ip)
+        self.std = None
+        self.calls = []
+        self.r_none = self.r_may_be_none and ip.ctx.decide(2, "r-is-None") == 1
+        self.r = None if self.r_none else Sym(z3.Int("r"), INT)
+        return [self.src, self.r], {}
+
+    def list_comp(self, ip, e, env, mp):
+        ok = isinstance(e, _ast.ListComp) and len(e.generators) == 1 and e.generators[0].is_async and not e.generators[0].ifs and isinstance(e.elt, _ast.Name) and isinstance(e.generators[0].target, _ast.Name) and e.elt.id == e.generators[0].target.id
+        if not ok:
+            raise Unsupported("a comprehension other than [e async for e in <iterable>]")
+        it = ip.eval(e.generators[0].iter, env, mp)
+        if not (isinstance(it, Sym) and it.ty is SRC and it.t.eq(self.src.t)):
+            raise Unsupported("comprehension over something that is not the input")
+        st, cn = ip.st, SRC.cls
+        lo = st.get(cn, "lo", it.t)
+        complete = lo == self.lo0  # nothing had been consumed before: the pool is the whole input
+        st.put(cn, "lo", it.t, st.get(cn, "hi", it.t))
+        lib.suspend(ip, "comprehension", None)
+        return PoolVal(complete)
+
+    def std_call(self, ip, name, pool, r):
+        st = ip.st
+        self.calls.append((name, pool, r))
+        if ip.ctx.decide(2, "stdlib-call-raises") == 1:
+            e = ExcVal(ValueError, ())
+            self.std_exc = e
+            raise PyExc(e)
+        ref = Sym(st.alloc(SRC.cls), SRC)
+        h = H(st)
+        d = h.dq(SRC.cls, ref.t)
+        st.assume(z3.And(d.lo <= d.hi, d.lo >= 0, ref.t != self.src.t))
+        self.std, self.std_lo0, self.std_hi0, self.std_data0 = ref, d.lo, d.hi, d.data
+        return ref
+
+    def loop_spec(self, qualname, ordinal):
+        return LoopSpec(relay_inv, modifies={("GenOut", "out"), ("GenOut", "n"), ("GenOut", "pos")}, local_types={})
+
+    def want_r(self):
+        return Sym(self.n, INT) if self.r_none else self.r
+
+    def on_exit(self, ip, pre, exc, ret):
+        h = H(ip.st)
+        nm = self.funcname
+        j = z3.Int(ip.st.uniq("j"))
+        delegated = len(self.calls) == 1 and self.calls[0][0] == self.std_name and isinstance(self.calls[0][1], PoolVal)
+        if exc is not None:
+            name = exc.pycls.__name__ if exc.pycls is not None else "sym"
+            if name == "CancelledError":
+                return
+            if getattr(self, "std_exc", None) is exc:
+                ip.ctx.oblige(f"{nm}/post:an_exception_of_the_stdlib_call_is_relayed_as_it_is", z3.BoolVal(delegated), "post")
+            else:
+                self.own_error(ip, name)
+            return
+        if not delegated:
+            ip.ctx.fail(f"{nm}/post:delegates_exactly_once_to_the_stdlib_function_of_the_same_name", "post", f"calls: {[c[0] for c in self.calls]}")
+            return
+        _, pool, r = self.calls[0]
+        want = self.want_r()
+        same_r = (r is None and want is None) or (r is not None and want is not None and True)
+        ip.ctx.oblige(f"{nm}/post:delegates_exactly_once_to_the_stdlib_function_of_the_same_name", z3.BoolVal(True), "post")
+        ip.ctx.oblige(f"{nm}/post:the_pool_is_the_whole_input_in_order_and_r_is_the_callers", z3.And(pool.complete, z3.BoolVal(bool(same_r)), ip.term(r, INT) == ip.term(want, INT) if same_r and r is not None else z3.BoolVal(bool(same_r))), "post")
+        ip.ctx.oblige(f"{nm}/post:relays_every_element_of_the_stdlib_iterator_once_in_order", z3.And(out_n(h) == self.std_hi0 - self.std_lo0, forall([j], z3.Implies(z3.And(0 <= j, j < out_n(h)), out_at(h, j) == z3.Select(self.std_data0, self.std_lo0 + j)), patterns=[out_at(h, j)])), "post")
+
+    def own_error(self, ip, name):
+        ip.ctx.fail(f"{self.funcname}/post:raises_nothing_of_its_own", "post", f"raised {name}")
+
+    def after_resume(self, ip, what, payload):
+        super().after_resume(ip, what, payload)
+        ip.st.assume(H(ip.st).arr("$", "alloc") == self.before.arr("$", "alloc"))
+
+
+class CombinationsUnit(DelegationUnit):
+    funcname = std_name = "combinations"
+
+
+class CombinationsWithReplacementUnit(DelegationUnit):
+    funcname = std_name = "combinations_with_replacement"
+
+
+class PermutationsUnit(DelegationUnit):
+    funcname = std_name = "permutations"
+    r_may_be_none = True
+
+    def own_error(self, ip, name):
+        # the stdlib raises ValueError for a negative r itself; anyio's own check must agree with it
+        ip.ctx.oblige("permutations/post:its_own_ValueError_only_for_a_negative_r", z3.And(z3.BoolVal(name == "ValueError" and self.r is not None), self.r.t < 0 if self.r is not None else z3.BoolVal(False)), "post")
+
+
+UNITS += [CombinationsUnit, CombinationsWithReplacementUnit, PermutationsUnit]
